@@ -112,6 +112,38 @@ def c02_require(agg):
     return need
 
 
+# ------------------------------------------------------------------ C03
+
+def c03_env(b):
+    e = {}
+    if b % 2 == 1:
+        e["IPCMON_DELAY"] = "%d:%d:%d" % (b + 7, 200, 600)
+    if b % 4 == 2:
+        e["IPCMON_WIDEN"] = "8:300:0"
+    return e
+
+
+def c03_plan(tier, seed):
+    out = []
+    for v, nb in (("os-debug", 10), ("memfd-debug", 2), ("inproc-debug", 4)):
+        for j in jobs(v, "c03", nb if tier == "quick" else nb * 3, c03_env, {"cases": 45 if tier == "quick" else 500}, timeout=1500):
+            out.append(j)
+    return out
+
+
+def c03_require(agg):
+    st = agg["stats"]
+    need = []
+    if st.get("finales", 0) < 50:
+        need.append("fewer than 50 finales ran")
+    for k in ("action_drop-handle", "action_drop-carrier(fresh)", "action_drop-carrier(program)", "observer_0", "observer_1", "observer_3"):
+        if st.get(k, 0) < 1:
+            need.append("no %s observed" % k)
+    if st.get("action_child-exit", 0) + st.get("action_child-sigkill", 0) < 1:
+        need.append("no sender handle was held by another process")
+    return need
+
+
 # ------------------------------------------------------------------ C19
 
 def c19_plan(tier, seed):
@@ -165,6 +197,22 @@ NOTES = ("Runtime monitoring and sanitizers. ./check <id> rebuilds the harness (
 NOT_APPLICABLE = {}
 
 PROPS = {
+    "C03": {
+        "plan": c03_plan,
+        "require": c03_require,
+        "level": "exploration",
+        "level_text": "Exploration: model-generated histories of clone / embed / extract / drop over an acyclic family of <=6 channels are executed "
+                      "step by step against an executable handle-counting model (premature or missing Disconnected is flagged at the step), and each "
+                      "history ends in a finale in which all remaining sender handles of one channel - direct, in transit inside undelivered messages, "
+                      "held by threads and by another process - are released from 1..4 threads in seeded orders while a blocked, timed or polling "
+                      "observer watches; safety is decided on stamps, the wake-up clause by the logical hang rule (DESIGN 3.5).",
+        "level_note": "Liveness is restated as bounded progress: after every release returned and every helper was joined/reaped the observer must "
+                      "return; 'stuck' is only declared for a thread asleep in one system call with no CPU use. Cyclic channel families are excluded by the property.",
+        "technique": "runtime monitoring: executable reference model replayed along stamped histories + racing finale with logical hang detection",
+        "rule": "case = model-generated program of 10..80 operations followed by a finale (observer kind x release-action multiset x dropper threads); "
+                "distinct = hash of (operation list, observer kind, release actions, thread count); non-trivial = at least one release action raced the observer",
+        "assumptions": ["release of in-flight descriptors when their carrier is closed is synchronous in this kernel (observed, see DESIGN 1.1)"],
+    },
     "C19": {
         "plan": c19_plan,
         "post": c19_post,
